@@ -1445,6 +1445,8 @@ package analysis
 //@   ensures noOp(s, method, path) ==> len(result) == 0
 //@   ensures !noOp(s, method, path) ==> forall k in dom(result) :: fromLists(s, docPaths(s)[path].Parameters, opAtM(docPaths(s)[path], strings.ToUpper(method)).Parameters, k, result[k])
 
+//@ lemma opAtMTable [C14, C15]: forall pi spec.PathItem :: opAtM(pi, "GET") == pi.Get && opAtM(pi, "PUT") == pi.Put && opAtM(pi, "POST") == pi.Post && opAtM(pi, "PATCH") == pi.Patch && opAtM(pi, "DELETE") == pi.Delete && opAtM(pi, "HEAD") == pi.Head && opAtM(pi, "OPTIONS") == pi.Options
+
 //@ fun idUnknown(s *Spec, id string) bool = forall p in dom(docPaths(s)) :: forall M string :: opAtM(docPaths(s)[p], M) != nil ==> opAtM(docPaths(s)[p], M).ID != id
 
 //@ func (s *Spec) SafeParametersFor(operationID, callmeOnError)
@@ -1452,6 +1454,7 @@ package analysis
 //@   modifies nothing
 //@   panics when callmeOnError == nil
 //@   ensures idUnknown(s, operationID) ==> len(result) == 0
+//@   loop 1001: invariant forall i in 0..len(res) :: exists k in dom(bag) :: res[i] == bag[k]
 //@   ensures forall i in 0..len(result) :: exists p in dom(docPaths(s)) :: exists M string :: opAtM(docPaths(s)[p], M) != nil && opAtM(docPaths(s)[p], M).ID == operationID && (exists k string :: fromLists(s, docPaths(s)[p].Parameters, opAtM(docPaths(s)[p], M).Parameters, k, result[i]))
 
 //@ func (s *Spec) ParametersFor(operationID)
